@@ -209,7 +209,16 @@ def _create_default_registry() -> OperatorRegistry:
     # Unary operators
     # Arithmetic functions
     ops.register(tokens.PLUS, "+{0}", is_prefix=True)
-    ops.register(tokens.MINUS, "-{0}", is_prefix=True)
+    ops.register_custom(
+        tokens.MINUS,
+        SQLOperator(
+            sql_template="-{0}",
+            is_prefix=True,
+            # "--x" would start a SQL comment: parenthesise an operand that begins with a minus.
+            custom_generator=lambda a: f"-({a})" if a.lstrip().startswith("-") else f"-{a}",
+        ),
+        arity=1,
+    )
     ops.register(tokens.CEIL, "CEIL({0})")
     ops.register(tokens.FLOOR, "FLOOR({0})")
     ops.register(tokens.ABS, "ABS({0})")
